@@ -142,10 +142,10 @@ func (c *checkCtx) writeEvidence(bt *batch, xp *xprocResult, reports []report, v
 func componentsFor(id string) map[string]any {
 	real := []string{"linter", "checkers (hand-written and embedded rule groups)", "checkers/internal/astwalk, lintutil",
 		"go-ruleguard, gogrep, go-toolsmith/*, go/types, go/ast (real, uninstrumented)"}
-	stub := []string{"package loading inside the worker: go/packages runs once per process; the corpus is pre-loaded"}
+	stub := []string{"package loading inside the worker: go/packages runs once per process over the corpus (files parsed in an order the simulator owns); the program's call into its loader is served from it and the position table of the served files is mirrored into the program's own token.FileSet"}
 	switch id {
 	case "C02", "C03", "C04":
-		real = append([]string{"cmd/go-critic program: flag parsing, parameter assignment, initCheckers, checkPackage, checkFile with its goroutines, semaphore and barrier, printing (only loadProgram's loader call is replaced)",
+		real = append([]string{"cmd/go-critic: the real entry point of the check sub-command (runCheck) with every step the working tree gives it - flag parsing, validation, parameter assignment, loadProgram, initCheckers, runCheckers / checkPackage / checkFile with their goroutines and channels, printing, exit; three seams: the call into the package loader, os.Exit / log.Fatal*, and a hook at the entry of linter.(*Context).SetPackageInfo",
 			"checkers/analyzer: Analyzer.Run, prepareGocritic, newGocritic, createCheckers"}, real...)
 		stub = append(stub, "go/analysis driver: stub that starts one goroutine per package pass (what x/tools' checker does), Pass.Report collects per pass")
 		if id == "C02" {
@@ -155,7 +155,7 @@ func componentsFor(id string) map[string]any {
 			real = append(real, "the shipped go-critic and gocritic binaries as real processes with the real package loader (command-line order/grouping leg)")
 		}
 	case "C05":
-		real = append([]string{"cmd/go-critic program under seeded schedules (switch-point fingerprints)", "linter.NewChecker / Checker.Check for every registered checker (frame sweeps)"}, real...)
+		real = append([]string{"cmd/go-critic: the real entry point runCheck under seeded schedules (switch-point fingerprints)", "linter.NewChecker / Checker.Check for every registered checker (frame sweeps)"}, real...)
 	case "C13":
 		real = append([]string{"the astwalk walkers and every selected checker over permuted declaration orders / re-parsed transformed sources", "go/parser and go/types for the in-memory re-check"}, real...)
 	case "C18":
